@@ -392,6 +392,10 @@ def run_hexagon(case, ctx, g):
 
 def run_links(case, ctx, Links):
     check(sorted(int(l) for l in Links) == list(range(6)), "links-enum", "")
+    # the names callers write, and what the hardware means by each number
+    check({l.name: int(l) for l in Links} ==
+          dict(east=0, north_east=1, north=2, west=3, south_west=4, south=5),
+          "links-names", repr({l.name: int(l) for l in Links}))
     for l in Links:
         ctx.hit("links")
         v = tuple(l.to_vector())
